@@ -158,11 +158,14 @@ prop("C06", level="other", bounded=[],
                  "make_step_for_row edits only the new deep copy (frame: no list that existed before -- the outline step's table "
                  "headings, rows, cells -- changes), so rows cannot influence each other or the template; the "
                  "row scenarios are rebuilt exactly when some Examples table is marked modified, cached otherwise, and no table is "
-                 "left marked. Bounded: the substitution itself (render_template, step tables, names), build_scenarios' double loop, "
-                 "row ids, Table API histories",
+                 "left marked; render_template returns text without a '<'..'>' pair unchanged and otherwise applies one "
+                 "replacement per (name, value) pair of the row and then of the extra parameters, in order, none skipped "
+                 "(str.replace itself uninterpreted). Bounded: what the replacements do to the characters (step tables, names, "
+                 "KF-C06-1), build_scenarios' double loop, row ids, Table API histories",
      technique="contract-based deductive verification (own VC generator over the real ASTs, z3/cvc5) of the expansion structure; "
                "bounded run-time contract stand-in for the string substitution",
-     notes=["render_template / Tag.make_name / make_step_for_row / make_scenario_name are uninterpreted functions of their arguments",
+     notes=["callers see render_template / Tag.make_name / make_scenario_name as functions of their arguments (call-site views); "
+            "render_template's own body is proved against the replacement chain rt()",
             "Scenario(...) constructor stores its arguments (trusted contract new:Scenario)"])
 
 # -- rows never influence each other or the template: the step of a row is a deep copy --------------------------------
@@ -200,3 +203,30 @@ contract(M + "ScenarioOutlineBuilder.make_step_for_row", props=["C06"],
                   "its-name-is-the-outline-step's-name-rendered-for-this-row": "result.name == rendered(old(outline_step.name), row, params)"},
          doc="`modifies=[]`: nothing that existed before the call changes -- the outline step, its table, rows and cells "
              "(frame obligations); only the new copy is edited")
+
+# -- render_template: the substitution chain itself ------------------------------------------------------
+oracle("ph_items", ["val"], "val")                     # placeholders.items(): the (name, value) pairs of a row / dict
+oracle("rt", ["val:str", "val", "int"], "val:str")     # text after substituting the first k pairs
+contract("abs:placeholders.items", trusted=True, pos_params=["self"], pure=True, result="seq:tuple:str",
+         ensures={"value": "result is ph_items(self)",
+                  "pairs": "forall(lambda k: implies(0 <= k < len(result), len(as_tuple(result[k], 'str')) == 2))"},
+         doc="row.items() / dict.items(): a sequence of (name, value) pairs that depends on the provider only (A-lib)")
+_ITEMS = "as_list(%s, 'tuple:str')"
+contract(M + "ScenarioOutlineBuilder.render_template", props=["C06"],
+         params={"text": "str", "row": "any", "params": "any"}, result="str",
+         callsites={"placeholders.items": "abs:placeholders.items"},
+         modifies=[],
+         assume={"definition-of-rt: substitute the pairs one after the other":
+                 "forall_val(lambda t: forall_val(lambda s: rt(t, s, 0) == t and forall(lambda k: implies("
+                 "0 <= k < len(as_list(s, 'tuple:str')), rt(t, s, k + 1) == rt(t, s, k).replace("
+                 "u'<%s>' % as_tuple(as_list(s, 'tuple:str')[k], 'str')[0], as_tuple(as_list(s, 'tuple:str')[k], 'str')[1])))))"},
+         loops=[None,
+                Loop(invariant={"first-i-pairs-substituted": "text == rt(pre(text), _seq, _i)"})],
+         ensures={
+             "text-without-a-placeholder-bracket-pair-is-returned-unchanged": "implies(not ptag(text), result == text)",
+             "every-pair-of-the-row-then-of-the-parameters-is-substituted-in-order":
+                 "implies(ptag(text), result == rt(ite(truthy(row), rt(text, ph_items(row), len(%s)), text), ph_items(params), "
+                 "ite(truthy(params), len(%s), 0)))" % (_ITEMS % "ph_items(row)", _ITEMS % "ph_items(params)"),
+         },
+         doc="`str.replace` and `%` formatting are uninterpreted (A-str); what is proved is which replacements are made, "
+             "with which pair, in which order, and that none is skipped")
